@@ -97,33 +97,33 @@ Lemma merge_eqn : forall o t d it, is_nil it = false ->
   merge o t d it = through t d (fun b c => body (merge o) (merge o) (fun _ => o_slice_elem_reset o) o b c it).
 Proof.
   intros o t d it Hn. unfold through.
-  destruct it; try discriminate; cbn [merge]; destruct (peel t d) as [[bt c] w]; destruct bt as [| |e|e|e|fs|]; try reflexivity.
+  destruct it; try discriminate; unfold merge; cbn [merge_x unbox]; destruct (peel t d) as [[bt c] w]; destruct bt as [| |e|e|e|fs|]; try reflexivity.
   - (* IArr, slice *)
     unfold body. f_equal.
     match goal with |- (do xs <- ?F l ?oo ;; _) = _ =>
       assert (G : forall l old, F l old = slice_upd (merge o e) (o_slice_elem_reset o) (zero_of e) l old) end.
-    { clear. induction l as [|x r IH]; intro old; [reflexivity|]. simpl.
+    { clear. induction l as [|x r IH]; intro old; [reflexivity|]. simpl. fold merge. fold dec_refl.
       match goal with |- (do y <- ?A ;; _) = _ => destruct A end; simpl; [rewrite IH; reflexivity|reflexivity|reflexivity]. }
     rewrite G. reflexivity.
   - (* IArr, struct *)
     unfold body. f_equal.
     match goal with |- (do xs <- ?F l 0 ?oo ;; _) = _ =>
       assert (G : forall l i xs, F l i xs = sarr_upd (merge o) fs l i xs) end.
-    { clear. induction l as [|x r IH]; intros i xs; [reflexivity|]. simpl. destruct (i <? length fs); [|apply IH].
+    { clear. induction l as [|x r IH]; intros i xs; [reflexivity|]. simpl. fold merge. fold dec_refl. destruct (i <? length fs); [|apply IH].
       unfold ftype, fval. match goal with |- (do y <- ?A ;; _) = _ => destruct A end; simpl; [apply IH|reflexivity|reflexivity]. }
     rewrite G. reflexivity.
   - (* IMap, map *)
     unfold body. f_equal.
     match goal with |- (do m <- ?F l ?oo ;; _) = _ =>
       assert (G : forall kvs m, F kvs m = map_upd (merge o e) (o_map_value_reset o) (zero_of e) kvs m) end.
-    { clear. induction kvs as [|[k x] r IH]; intro m; [reflexivity|]. simpl. destruct k; try reflexivity.
+    { clear. induction kvs as [|[k x] r IH]; intro m; [reflexivity|]. simpl. fold merge. fold dec_refl. destruct k; try reflexivity.
       match goal with |- (do y <- ?A ;; _) = _ => destruct A end; simpl; [apply IH|reflexivity|reflexivity]. }
     rewrite G. reflexivity.
   - (* IMap, struct *)
     unfold body. f_equal.
     match goal with |- (do xs <- ?F l ?oo ;; _) = _ =>
       assert (G : forall kvs xs, F kvs xs = smap_upd (merge o) fs kvs xs) end.
-    { clear. induction kvs as [|[k x] r IH]; intro xs; [reflexivity|]. simpl. destruct k; try reflexivity.
+    { clear. induction kvs as [|[k x] r IH]; intro xs; [reflexivity|]. simpl. fold merge. fold dec_refl. destruct k; try reflexivity.
       destruct (index_of_name s fs 0); [|apply IH].
       unfold ftype, fval. match goal with |- (do y <- ?A ;; _) = _ => destruct A end; simpl; [apply IH|reflexivity|reflexivity]. }
     rewrite G. reflexivity.
@@ -133,29 +133,29 @@ Lemma refl_eqn : forall fp o t d it, is_nil it = false ->
   dec_refl fp o t d it = through t d (fun b c => body (dec_refl fp o) (field_dec fp o) (refl_reset fp o) o b c it).
 Proof.
   intros fp o t d it Hn. unfold through.
-  destruct it; try discriminate; cbn [dec_refl]; destruct (peel t d) as [[bt c] w]; destruct bt as [| |e|e|e|fs|]; try reflexivity.
+  destruct it; try discriminate; unfold dec_refl; cbn [dec_refl_x unbox]; destruct (peel t d) as [[bt c] w]; destruct bt as [| |e|e|e|fs|]; try reflexivity.
   - unfold body. f_equal.
     match goal with |- (do xs <- ?F l ?oo ;; _) = _ =>
       assert (G : forall l old, F l old = slice_upd (dec_refl fp o e) (refl_reset fp o e) (zero_of e) l old) end.
-    { clear. induction l as [|x r IH]; intro old; [reflexivity|]. simpl. unfold refl_reset in *.
+    { clear. induction l as [|x r IH]; intro old; [reflexivity|]. simpl. fold merge. fold dec_refl. unfold refl_reset in *.
       match goal with |- (do y <- ?A ;; _) = _ => destruct A end; simpl; [rewrite IH; reflexivity|reflexivity|reflexivity]. }
     rewrite G. reflexivity.
   - unfold body. f_equal.
     match goal with |- (do xs <- ?F l 0 ?oo ;; _) = _ =>
       assert (G : forall l i xs, F l i xs = sarr_upd (field_dec fp o) fs l i xs) end.
-    { clear. induction l as [|x r IH]; intros i xs; [reflexivity|]. simpl. destruct (i <? length fs); [|apply IH].
+    { clear. induction l as [|x r IH]; intros i xs; [reflexivity|]. simpl. fold merge. fold dec_refl. destruct (i <? length fs); [|apply IH].
       unfold ftype, fval, field_dec. match goal with |- (do y <- ?A ;; _) = _ => destruct A end; simpl; [apply IH|reflexivity|reflexivity]. }
     rewrite G. reflexivity.
   - unfold body. f_equal.
     match goal with |- (do m <- ?F l ?oo ;; _) = _ =>
       assert (G : forall kvs m, F kvs m = map_upd (dec_refl fp o e) (o_map_value_reset o) (zero_of e) kvs m) end.
-    { clear. induction kvs as [|[k x] r IH]; intro m; [reflexivity|]. simpl. destruct k; try reflexivity.
+    { clear. induction kvs as [|[k x] r IH]; intro m; [reflexivity|]. simpl. fold merge. fold dec_refl. destruct k; try reflexivity.
       match goal with |- (do y <- ?A ;; _) = _ => destruct A end; simpl; [apply IH|reflexivity|reflexivity]. }
     rewrite G. reflexivity.
   - unfold body. f_equal.
     match goal with |- (do xs <- ?F l ?oo ;; _) = _ =>
       assert (G : forall kvs xs, F kvs xs = smap_upd (field_dec fp o) fs kvs xs) end.
-    { clear. induction kvs as [|[k x] r IH]; intro xs; [reflexivity|]. simpl. destruct k; try reflexivity.
+    { clear. induction kvs as [|[k x] r IH]; intro xs; [reflexivity|]. simpl. fold merge. fold dec_refl. destruct k; try reflexivity.
       destruct (index_of_name s fs 0); [|apply IH].
       unfold ftype, fval, field_dec. match goal with |- (do y <- ?A ;; _) = _ => destruct A end; simpl; [apply IH|reflexivity|reflexivity]. }
     rewrite G. reflexivity.
